@@ -103,6 +103,29 @@ func (x *c16Cons) incs() []int {
 	return out
 }
 
+// mediaOf counts the media frames (not sequence headers) of incarnation inc received so far.
+func (x *c16Cons) mediaOf(inc int) int {
+	n := 0
+	add := func(b []byte) {
+		for _, t := range gen.FindTags(b) {
+			if t.Inc == inc && t.Idx < gen.SeqHdrTagBase {
+				n++
+			}
+		}
+	}
+	switch {
+	case x.rtmp != nil:
+		for _, m := range x.rtmp.Hist.Snapshot() {
+			add(m.Payload)
+		}
+	case x.kind == "flv":
+		for _, t := range x.http.Tags() {
+			add(t.Data)
+		}
+	}
+	return n
+}
+
 func c16StartCons(s *srv.Server, kind, name string, inc int) (*c16Cons, error) {
 	x := &c16Cons{kind: kind, inc: inc}
 	var err error
@@ -168,6 +191,11 @@ func c16Finalise(c *fw.Ctx, i int) {
 	defer stub.Close()
 	conf := srv.Conf{RtmpGop: 1 + r.Intn(2), Flv: true, FlvGop: 1, Ts: true, TsGop: i % 2, Hls: true, HlsFragMs: 1000, HlsFragNum: 4000, HlsDelThr: 4000, HlsCleanup: 0,
 		Rtsp: true, RecFlv: true, RecTs: true, Api: true, PushAddrs: []string{stub.Addr}, MergeWrite: []int{0, 0, 2048}[r.Intn(3)], HlsHttpsOnly: i%6 == 1}
+	if i%4 == 0 {
+		// the first incarnation of these cases ends while mid-GOP joiners are still waiting for a key
+		// frame: without GOP caches the RTMP and HTTP-FLV joiners wait too (and stay for the successor)
+		conf.RtmpGop, conf.FlvGop = 0, 0
+	}
 	s, err := srv.Start(conf, root)
 	if err != nil {
 		c.Inconclusive("server start: %v", err)
@@ -217,6 +245,10 @@ func c16Finalise(c *fw.Ctx, i int) {
 	for cyc := 0; cyc < K; cyc++ {
 		inc := cyc + 1
 		codec := c16Codecs[(i/5+cyc*3+r.Intn(2))%len(c16Codecs)]
+		if i%8 == 0 && cyc < 2 {
+			// players left waiting for a key frame by a video incarnation, then an audio-only successor
+			codec = [][2]string{{"avc", "aac"}, {"", "aac"}}[cyc]
+		}
 		sp := c16Spec(r, codec)
 		es := gen.BuildEs(c.SubRng(fmt.Sprintf("es%d", cyc)), inc, sp)
 		msgs := es.RtmpMessages(true)
@@ -454,9 +486,11 @@ func c16Finalise(c *fw.Ctx, i int) {
 					break
 				}
 			}
-			if x.kind == "ts" && way != "dispose" {
+			if (x.kind == "ts" || cls == "shortly-after-join") && way != "dispose" {
 				// an HTTP-TS player that joined mid-GOP stays for the next incarnation too: it may still be
-				// waiting for a key frame when the input changes
+				// waiting for a key frame when the input changes. So do the RTMP / HTTP-FLV players of the
+				// "shortly-after-join" endings: whatever they were waiting for belongs to a stream that is
+				// gone, the successor (possibly audio only) must serve them like anybody else
 				nextCarry = append(nextCarry, x)
 				continue
 			}
@@ -497,6 +531,17 @@ func c16Finalise(c *fw.Ctx, i int) {
 				}
 			}
 			x.close()
+		}
+		for _, x := range carry {
+			x := x
+			if x.kind == "ts" || way == "dispose" || deliverable < 6 || (x.kind == "rtmp" && conf.MergeWrite > 0) || x.closed() {
+				continue
+			}
+			got := srv.WaitFor(2*time.Second, func() bool { return x.mediaOf(inc) > 0 })
+			c.Count("carried_waiting_players_judged", 1)
+			if !got {
+				c.Violate("carried-joiner-starved/"+x.kind, fmt.Sprintf("a %s consumer that joined incarnation %d mid-GOP and was still waiting for a key frame when that input ended received no frame of the next publisher although %d deliverable frames were published (it keeps waiting for a key frame of a stream that is gone) | %s", x.kind, x.inc, deliverable, desc), nil)
+			}
 		}
 		if way != "dispose" {
 			// the long-lived HTTP-TS consumer: frames of this incarnation travel under a PMT that
@@ -1630,7 +1675,7 @@ func init() {
 		},
 		Setup:       c16Setup,
 		CaseTimeout: func(string) time.Duration { return 4 * time.Minute },
-		Rule:        "whole-server runs with HLS (disk), FLV and TS recorders, relay push to a stub target, the stream hook and RTMP/FLV/TS consumers. Finalise scenarios (3 of 5 cases with an RTMP publisher; 1 of 5 with an RTSP publisher over interleaved TCP or UDP ended by close / kick / silence / TEARDOWN, outputs checked structurally): 3–5 incarnations of one stream name with changing codec pairs (AVC/HEVC/enhanced HEVC/none × AAC/none); each incarnation is cut at a seeded instant (nothing sent, headers only, right after a key frame, after an audio frame with batched audio pending, a few messages after mid-GOP joiners attached, mid-stream, complete) by close / API kick / going silent (check interval 2 s; in half of these after having trickled its last messages over 4.8 s, i.e. after being found alive by at least two checks) / server Dispose. Observed right after each end: stream-hook OnStop calls = 1 and OnMsg calls = messages published; push target connection closed; exactly one FLV and one TS recording, FLV parses to EOF and equals the published audio/video messages, TS passes the C06 frame oracle to the last video and audio frame (flush); live and record playlists parse, one ENDLIST, every segment file listed and present, segments pass the frame oracle to the last frame; idle publisher gets pub_stop ≤ 2·interval+3 s+2 s and its socket closes; joiners of an incarnation see only its tags; players that join while the name has no input see only the next incarnation's tags and do receive its frames; long-lived consumers never see an older incarnation after a newer one, and the long-lived HTTP-TS consumer sees each incarnation's frames under a PMT that declares that incarnation's codecs; stat codec fields equal the current input's; the group leaves /api/stat/all_group ≤ 8 s after the last session. Re-publish scenarios (1 of 10): cleanup_mode 1/2 with a 1.5 s delayed directory cleanup, a second publisher of the name arriving at once and staying live across the first one's cleanup timer — live playlist and listed segments must be on disk while it is live and finalised when it ends, directory removed after the last end. RTSP-pull scenarios (4 extra cases, thorough 20): lal relay-pulls a stream from its own RTSP server (TCP/UDP) into another name; the pull ends by stop_relay_pull / kick / end of the origin stream — relay_pull_stop ≤ 6 s, hook OnStop exactly once, ENDLIST in the pulled stream's playlist, group removed ≤ 8 s, a publisher of the name admitted. Late-push scenarios (4 extra cases, thorough 20): the push target withholds its answer to `publish` until the publisher has left by close or kick (and, alternately, answers in time) — its connection must be closed within 4 s either way. Pull-dispose scenarios (4 extra cases, thorough 20): the input is a relay pull (attached, or its attempt held in flight by the origin) and the server is shut down — the origin connection must be closed within 4 s. Resource scenarios (1 of 5): 3 warm-up cycles, baseline goroutines and /proc/self/fd with no session left, 6 (thorough 12) cycles with RTMP/FLV/TS/RTSP-TCP/RTSP-UDP consumers, abandoned RTSP DESCRIBE/SETUP, aborted RTMP handshakes, HLS and API requests, ends by close/kick/consumers-first; growth ≥ 1 per 2 cycles is a leak. cell = end way × end instant × codec pair.",
+		Rule:        "whole-server runs with HLS (disk), FLV and TS recorders, relay push to a stub target, the stream hook and RTMP/FLV/TS consumers. Finalise scenarios (3 of 5 cases with an RTMP publisher; 1 of 5 with an RTSP publisher over interleaved TCP or UDP ended by close / kick / silence / TEARDOWN, outputs checked structurally): 3–5 incarnations of one stream name with changing codec pairs (AVC/HEVC/enhanced HEVC/none × AAC/none); each incarnation is cut at a seeded instant (nothing sent, headers only, right after a key frame, after an audio frame with batched audio pending, a few messages after mid-GOP joiners attached, mid-stream, complete) by close / API kick / going silent (check interval 2 s; in half of these after having trickled its last messages over 4.8 s, i.e. after being found alive by at least two checks) / server Dispose. Observed right after each end: stream-hook OnStop calls = 1 and OnMsg calls = messages published; push target connection closed; exactly one FLV and one TS recording, FLV parses to EOF and equals the published audio/video messages, TS passes the C06 frame oracle to the last video and audio frame (flush); live and record playlists parse, one ENDLIST, every segment file listed and present, segments pass the frame oracle to the last frame; idle publisher gets pub_stop ≤ 2·interval+3 s+2 s and its socket closes; joiners of an incarnation see only its tags; players that join while the name has no input see only the next incarnation's tags and do receive its frames; long-lived consumers never see an older incarnation after a newer one, and the long-lived HTTP-TS consumer sees each incarnation's frames under a PMT that declares that incarnation's codecs; stat codec fields equal the current input's; the group leaves /api/stat/all_group ≤ 8 s after the last session. Re-publish scenarios (1 of 10): cleanup_mode 1/2 with a 1.5 s delayed directory cleanup, a second publisher of the name arriving at once and staying live across the first one's cleanup timer — live playlist and listed segments must be on disk while it is live and finalised when it ends, directory removed after the last end. RTSP-pull scenarios (4 extra cases, thorough 20): lal relay-pulls a stream from its own RTSP server (TCP/UDP) into another name; the pull ends by stop_relay_pull / kick / end of the origin stream — relay_pull_stop ≤ 6 s, hook OnStop exactly once, ENDLIST in the pulled stream's playlist, group removed ≤ 8 s, a publisher of the name admitted. Late-push scenarios (4 extra cases, thorough 20): the push target withholds its answer to `publish` until the publisher has left by close or kick (and, alternately, answers in time) — its connection must be closed within 4 s either way. Pull-dispose scenarios (4 extra cases, thorough 20): the input is a relay pull (attached, or its attempt held in flight by the origin) and the server is shut down — the origin connection must be closed within 4 s. Resource scenarios (1 of 5): 3 warm-up cycles, baseline goroutines and /proc/self/fd with no session left, 6 (thorough 12) cycles with RTMP/FLV/TS/RTSP-TCP/RTSP-UDP consumers, abandoned RTSP DESCRIBE/SETUP, aborted RTMP handshakes, HLS and API requests, ends by close/kick/consumers-first; growth ≥ 1 per 2 cycles is a leak. cell = end way × end instant × codec pair. Mid-GOP RTMP / HTTP-FLV / HTTP-TS joiners of an incarnation that ends before its next key frame (GOP caches off in those cases) stay attached: the successor - audio only in every eighth case - must serve them (carried-joiner-starved).",
 		Assumptions: []string{"recording and HLS files of one incarnation are inspected and then removed by the harness before the next incarnation starts (lal names recordings by second, so back-to-back incarnations would otherwise share a file name)", "goroutine and descriptor counts include the harness's own; every harness connection is closed before counting and only growth proportional to the number of cycles is judged"},
 		MinCells:    10,
 		Run: func(c *fw.Ctx, i int) {
